@@ -42,6 +42,18 @@ def sizesFn (l : List Nat) (k : Nat) : Nat :=
   | some n => n - 1
   | none => 1000000000
 
+/-- `rxprod N <wire> T <0|1> CH <chunk> => ..` (production build): the closed form of
+    `C17_rx_threshold_prod` at the production constants extracted from the source. The harness's call
+    frame has 49 bytes around the payload, plus the terminator. -/
+def handleProd (ts : List String) : String :=
+  match ts with
+  | "rxprod" :: "N" :: n :: "T" :: t :: "CH" :: _ :: "=>" :: obs =>
+    let n := n.toNat!
+    let m := if t == "1" then (if n < Gen.maxBufferSizeProd then "ok " ++ toString (n - 50) else "overflow")
+             else (if n < Gen.maxBufferSizeProd then "eof" else "overflow")
+    "M " ++ m ++ " | H " ++ (if " ".intercalate obs == m then "1" else "0")
+  | _ => "bad-line"
+
 /-- `rx <kind> F <frame>=<verdict>* S <size>* E <ev>* => <tok>*` ↦ `M <model toks> | H <0/1>` -/
 def handle (bounds : Bool) (ts : List String) : String :=
   let (_, r1) := splitAt "F" ts
